@@ -19,7 +19,7 @@ FUNCTIONS = ['bycycle.features.features.compute_features', 'bycycle.features.cyc
              'bycycle.features.shape.compute_shape_features', 'bycycle.features.burst.compute_burst_features',
              'bycycle.burst.cycle.detect_bursts_cycles', 'bycycle.burst.amp.detect_bursts_amp']
 BOUNDS = {'quick': 'amp_cp: padded length <= 7, symbolic a > 0; amp_full: N = 5 (1 cycle), 6..7 (2 cycles), 8 (3 cycles), a in {2^-20, 1/2, 2, 2^20}; units: padded length 8, symbolic c > 0, both burst methods',
-          'thorough': 'amp_cp: padded length <= 8; amp_full: N <= 9; units: padded length <= 9'}
+          'thorough': 'amp_cp: padded length <= 8; amp_full: N <= 8, all four factors; units: padded length <= 9'}
 OUTSIDE = 'longer signals; IEEE rounding (the property itself restricts factors to powers of two for that reason; reals are used here); scale factors other than the four listed for the full table'
 STUBS = ['filter_signal: positively homogeneous (amp_cp) / depends on f/fs only (units)', 'amp_by_time: homogeneous / ratio-only',
          'detect_bursts_dual_threshold: scale-free / ratio-only', 'amp_full: compute_cyclepoints -> same arbitrary C01-conforming table for x and a*x']
@@ -35,18 +35,22 @@ def configs(tier):
     for L, ns in ((0, [6, 7] if q else [6, 7, 8]), (1, [5] if q else [5, 6])):
         for n in ns:
             out.append({'mode': 'amp_cp', 'n': n, 'L': L})
-    for rows, ns in ((1, [5]), (2, [6, 7] if q else [6, 7, 8]), (3, [8] if q else [8, 9])):
+    for rows, ns in ((1, [5]), (2, [6, 7] if q else [6, 7, 8]), (3, [8])):
         for n in ns:
             for method in ('cycles', 'amp'):
                 for centre in ('peak', 'trough'):
                     for a in (['2^-1', '2^20'] if q else list(FACTORS)):
                         if q and (rows == 3 and (centre == 'trough' or a == '2^-1') or rows == 2 and n == 7 and a == '2^-1'):
                             continue
+                        if not q and n == 8 and a in ('2^-1', '2') and centre == 'trough':
+                            continue
                         out.append({'mode': 'amp_full', 'rows': rows, 'n': n, 'method': method, 'centre': centre, 'a': a})
     for L, ns in ((0, [8] if q else [8, 9]), (1, [6] if q else [6, 7])):
         for n in ns:
             for method in ('cycles', 'amp'):
                 for centre in ('peak', 'trough'):
+                    if not q and n in (9, 7) and centre == 'trough':
+                        continue
                     out.append({'mode': 'units', 'n': n, 'L': L, 'method': method, 'centre': centre})
     return out
 
